@@ -3,9 +3,11 @@
 // coq/Proofs/CleanerGen.v are then re-proved about what it printed.  Anything outside the fragment is an error (exit 2):
 // the translator never guesses.
 //
-// usage: gotr -repo DIR -out FILE
+// usage: gotr [-set cleaners|sanity|retry] -repo DIR -out FILE
 //
-// Targets (fixed): bigbuff.go DefaultCleaner; bigbuff.go FixedBufferCleaner (a function whose body is exactly
+// -set sanity / -set retry: see pure.go (straight-line functions over fixed-width integers -> coq/Model/GoFrag2.v).
+//
+// Targets of the default set "cleaners" (fixed): bigbuff.go DefaultCleaner; bigbuff.go FixedBufferCleaner (a function whose body is exactly
 // `return func(...) int {...}`: translated as one function over the outer followed by the inner parameters).
 //
 // Fragment: parameters of type int, bool, []int, or a func type (only compared with nil and called for effect);
@@ -497,8 +499,28 @@ func intResult(ft *ast.FuncType) bool {
 func main() {
 	repo := flag.String("repo", "/repo", "source tree")
 	out := flag.String("out", "", "output .v file")
+	set := flag.String("set", "cleaners", "which functions: cleaners (GoFrag), sanity, retry (GoFrag2)")
 	flag.Parse()
 	var b strings.Builder
+	if tgs, ok := sets2[*set]; ok {
+		b.WriteString("(* GENERATED by harness/cmd/gotr -set " + *set + " from the current source - do not edit *)\n")
+		b.WriteString("From Coq Require Import List ZArith String.\nFrom BB.Model Require Import GoFrag GoFrag2.\nImport ListNotations.\nLocal Open Scope string_scope.\nLocal Open Scope Z_scope.\n\n")
+		fset := token.NewFileSet()
+		for _, tg := range tgs {
+			f, err := parser.ParseFile(fset, filepath.Join(*repo, tg.file), nil, 0)
+			if err != nil {
+				fmt.Fprintln(os.Stderr, "gotr:", err)
+				os.Exit(2)
+			}
+			translate2(fset, f, tg, &b)
+		}
+		emit(*out, b.String())
+		return
+	}
+	if *set != "cleaners" {
+		fmt.Fprintf(os.Stderr, "gotr: unknown set %q\n", *set)
+		os.Exit(2)
+	}
 	b.WriteString("(* GENERATED by harness/cmd/gotr from the current source - do not edit *)\n")
 	b.WriteString("From Coq Require Import List ZArith String.\nFrom BB.Model Require Import GoFrag.\nImport ListNotations.\nLocal Open Scope string_scope.\nLocal Open Scope Z_scope.\n\n")
 	known := map[string]bool{}
@@ -552,11 +574,15 @@ func main() {
 			tg.name, q(tg.name), strings.Join(mapq(ps), "; "), code)
 		known[tg.name] = true
 	}
-	if *out == "" {
-		fmt.Print(b.String())
+	emit(*out, b.String())
+}
+
+func emit(out, text string) {
+	if out == "" {
+		fmt.Print(text)
 		return
 	}
-	if err := os.WriteFile(*out, []byte(b.String()), 0o644); err != nil {
+	if err := os.WriteFile(out, []byte(text), 0o644); err != nil {
 		fmt.Fprintln(os.Stderr, "gotr:", err)
 		os.Exit(2)
 	}
